@@ -103,6 +103,21 @@ theorem converter_write_error_raised :
       "conv(&b) next=vm.setString(c, b.String()) | conv(w) writer=&convWriter{w: call.renderer.out} next=if w.err != nil { panic(outError{w.err}) }" := by
   decide +kernel
 
+/-- **Deferred native calls while the writer's error unwinds the stack.** `VM.Run` clears `vm.fn`
+before `nextCall` runs the pending deferred calls, and a deferred *native* function is called
+through `callNative` with `vm.fn` still nil (`nextCallCallsNative`); a panic raised there comes
+back through `convertPanic` and `newPanic`. None of the three dereferences `vm.fn` outside a nil
+guard — otherwise the writer's error E would be replaced by a nil-pointer fault that `convertPanic`
+classifies as fatal and `Run` would panic in the host instead of returning E. -/
+def nilFnReachable : List String := ["callNative", "convertPanic", "newPanic"]
+
+theorem unwind_no_nil_fn_deref :
+    WriteSites.nextCallCallsNative = true ∧
+    nilFnReachable.all (fun f =>
+      (WriteSites.fnDerefs.filter (·.1 == f)).length == 1 &&
+      (WriteSites.fnDerefs.filter (·.1 == f)).all (fun r => r.2.2 == 0 && 0 < r.2.1)) = true := by
+  decide +kernel
+
 /-! ### non-vacuity and the negative case -/
 
 -- a concrete three-chunk render, failing at the second write
